@@ -198,6 +198,11 @@ func shippedByBundle(c Case, r string) (map[string]byte, error) {
 			ev.Label("bundle-refuses-unreadable-rule-file")
 			return nil, errNotJudged
 		}
+		if strings.Contains(strings.Join(msgs, " | "), "invalid .terraformignore rules") && strings.Contains(c.ruleText(), "[") {
+			// a line that is not a pattern: the builder refuses the rule file, Pack ignores the line
+			ev.Label("bundle-refuses-invalid-rule-line")
+			return nil, errNotJudged
+		}
 		if strings.Contains(strings.Join(msgs, " | "), "filenames with newlines are not supported") {
 			// the package checksum (dirhash) refuses such names: the build fails loudly, nothing to compare
 			ev.Label("bundle-refuses-newline-names")
